@@ -86,7 +86,7 @@ pub fn cmd_worker(args: &Args) -> i32 {
     runner::apply_tier_limits(args.get("tier"));
     install_panic_hook(false);
     // first-level hang detection: a worker that stalls is re-examined alone with a longer limit
-    start_watchdog(args.num("watchdog", 6) as u32);
+    start_watchdog(args.num("watchdog", 12) as u32);
     let stdout = std::io::stdout();
     let mut out = stdout.lock();
     let mut ctx = RunCtx::new();
